@@ -13,6 +13,7 @@ def scenario(rng, flavour):
         "spacing": rng.choice(["fast", "normal", "mixed"]),
         "p_trade": rng.choice([0.5, 0.8]),
         "n_runners": (2, 4),
+        "p_lines": 0.15 if flavour == "C15" else 0.0,
     }
     mix = {
         "p_act": rng.choice([0.5, 0.8]),
